@@ -223,8 +223,17 @@ func MaybeNilDerefs(ds *Describer, fn *ssa.Function) []NilDeref {
 						if s, ok := est[bb]; ok && s == succ {
 							return false
 						}
+						if bb.Succs[succ] == phi.Block() {
+							return false // entering the phi's block again gives the phi a new value (next loop iteration)
+						}
 						return true
 					}}
+					if lf.Pred != nil && lf.To != nil {
+						// start on the edge the nil arrives by: a flag merged on the same edge (a helper's `found` result)
+						// then decides the branch that tests it
+						q.From = nil
+						q.StartEdge = &[2]*ssa.BasicBlock{lf.Pred, lf.To}
+					}
 					if w := q.Find(); w != nil {
 						dup := false
 						for i, o := range out {
@@ -338,7 +347,7 @@ func ReturnsNilWithNilError(g *ssa.Function, idx int) (*ssa.Return, bool) {
 		}
 		var nilPreds []*ssa.BasicBlock
 		direct := false
-		for _, lf := range PhiLeaves(ret.Results[idx], ret) {
+		for _, lf := range FeasibleLeaves(g, ret.Results[idx], ret) {
 			if IsNilConst(lf.V) {
 				if lf.Pred == nil {
 					direct = true
@@ -349,7 +358,7 @@ func ReturnsNilWithNilError(g *ssa.Function, idx int) (*ssa.Return, bool) {
 		if len(nilPreds) == 0 {
 			continue
 		}
-		for _, lf := range PhiLeaves(ret.Results[n-1], ret) {
+		for _, lf := range FeasibleLeaves(g, ret.Results[n-1], ret) {
 			if !IsNilConst(lf.V) {
 				continue
 			}
